@@ -7,6 +7,7 @@ From SP Require Import Design.Flat Design.Layout Design.Sem Comb.CombModel Rando
 From SP Require Encode.Compile Encode.CodeSem.
 Import ListNotations.
 Open Scope nat_scope.
+Set Default Proof Using "All".
 
 Lemma compile_product_eq {A} (ls : list (list A)) : Compile.product ls = Enum.product ls.
 Proof. induction ls as [|l t IH]; cbn; [reflexivity|]. rewrite IH. reflexivity. Qed.
@@ -22,6 +23,13 @@ Qed.
 
 Lemma list_nat_eqb_refl l : Compile.list_nat_eqb l l = true.
 Proof. induction l; cbn; [reflexivity | rewrite Nat.eqb_refl; exact IHl]. Qed.
+
+Lemma nth_error_combine {A B} (xs : list A) (ys : list B) i x y :
+  nth_error (combine xs ys) i = Some (x, y) -> nth_error xs i = Some x /\ nth_error ys i = Some y.
+Proof.
+  revert ys i. induction xs as [|a t IH]; intros [|b ys] i H; try (destruct i; discriminate).
+  destruct i; cbn in *; [inversion H; auto | apply IH; exact H].
+Qed.
 
 Section F0S.
 Variable fb : flat.
@@ -57,9 +65,8 @@ Proof.
   { assert (f < length (combine (seq 0 n) (fl_design fb))) by (apply nth_error_Some; congruence).
     rewrite combine_length, seq_length in H. lia. }
   assert (Hg : g = f /\ nth_error (fl_design fb) f = Some d).
-  { pose proof (nth_error_nth _ _ (0, d) E) as Hn. rewrite combine_nth in Hn by (rewrite seq_length; reflexivity).
-    inversion Hn as [[H1 H2]]. rewrite seq_nth in H1 by exact Hf. split; [lia|].
-    rewrite H2. apply nth_error_nth'. exact Hf. }
+  { apply nth_error_combine in E. destruct E as [E1 E2]. split; [|exact E2].
+    apply nth_error_nth with (d := 0) in E1. rewrite seq_nth in E1 by exact Hf. lia. }
   destruct Hg as [-> Hd]. split; [exact Hf|]. unfold CodeSem.code_factor. cbn [f_nlevels f_sustain f_derived fst snd].
   split; [unfold nlevels, factor_at; rewrite Hd; reflexivity|]. split; [apply f0_sustain_of|].
   apply nth_error_In in Hd. apply (f0_basic fb (f0_unpack fb HF)) in Hd. destruct Hd as [Hw _]. rewrite Hw. reflexivity.
@@ -136,6 +143,29 @@ Qed.
 
 End F0S.
 
+Fixpoint nlist_eqb (a b : list nat) : bool :=
+  match a, b with
+  | [], [] => true
+  | x :: a', y :: b' => (x =? y) && nlist_eqb a' b'
+  | _, _ => false
+  end.
+
+Lemma combo_eqb_map_some a b : Sem.combo_eqb a (map Some b) = nlist_eqb a b.
+Proof.
+  unfold Sem.combo_eqb. revert b. induction a as [|x a IH]; intros [|y b]; cbn; try reflexivity.
+  rewrite IH. reflexivity.
+Qed.
+
+Lemma nlist_eqb_eq a b : nlist_eqb a b = true <-> a = b.
+Proof.
+  revert b. induction a as [|x a IH]; intros [|y b]; cbn; split; intros H; try discriminate; try reflexivity.
+  - apply andb_prop in H. destruct H as [H1 H2]. apply Nat.eqb_eq in H1. apply IH in H2. subst. reflexivity.
+  - inversion H; subst. rewrite Nat.eqb_refl. apply IH. reflexivity.
+Qed.
+
+Definition count_in (ls : list nat) (blk : list (list nat)) : nat := length (filter (nlist_eqb ls) blk).
+
+
 (** * Chunks from blocks
 
     [cs] lists the combination (levels of the crossed factors) of every trial;
@@ -151,38 +181,13 @@ Variable cs : list (list nat).
 Hypothesis Hlen : length cs = s_trials S0.
 Hypothesis Hcombo : forall t, t < s_trials S0 -> combo_at s (c_factors cr) t = map Some (nth t cs []).
 
-Fixpoint nlist_eqb (a b : list nat) : bool :=
-  match a, b with
-  | [], [] => true
-  | x :: a', y :: b' => (x =? y) && nlist_eqb a' b'
-  | _, _ => false
-  end.
-
-Lemma combo_eqb_map_some a b : combo_eqb a (map Some b) = nlist_eqb a b.
-Proof.
-  unfold combo_eqb. revert b. induction a as [|x a IH]; intros [|y b]; cbn; try reflexivity.
-  rewrite IH. reflexivity.
-Qed.
-
-Lemma nlist_eqb_eq a b : nlist_eqb a b = true <-> a = b.
-Proof.
-  revert b. induction a as [|x a IH]; intros [|y b]; cbn; split; intros H; try discriminate; try reflexivity.
-  - apply andb_prop in H. destruct H as [H1 H2]. apply Nat.eqb_eq in H1. apply IH in H2. subst. reflexivity.
-  - inversion H; subst. rewrite Nat.eqb_refl. apply IH. reflexivity.
-Qed.
-
-Definition count_in (ls : list nat) (blk : list (list nat)) : nat := length (filter (nlist_eqb ls) blk).
-
 Lemma count_combo_block ls a len : a + len <= s_trials S0 ->
   count_combo s (c_factors cr) ls a (a + len) = count_in ls (firstn len (skipn a cs)).
 Proof.
   intros Hb. unfold count_combo, count_in. replace (a + len - a) with len by lia.
   revert a Hb. induction len as [|len IH]; intros a Hb; [reflexivity|].
   cbn [seq filter]. rewrite Hcombo by lia. rewrite combo_eqb_map_some.
-  assert (Hsk : skipn a cs = nth a cs [] :: skipn (S a) cs).
-  { clear - Hlen Hb. revert a Hb. generalize (s_trials S0) as T. intros T. revert T Hlen.
-    induction cs as [|x l IHl]; intros T Hl a Hb; cbn in Hl; [lia|].
-    destruct a; [reflexivity|]. cbn [skipn nth]. apply (IHl (T - 1)); lia. }
+  assert (Hsk : skipn a cs = nth a cs [] :: skipn (S a) cs) by (apply skipn_nth_cons; lia).
   rewrite Hsk. cbn [firstn filter]. specialize (IH (S a) ltac:(lia)).
   replace (S a + len - S a) with len in IH by lia.
   destruct (nlist_eqb ls (nth a cs [])); cbn [length]; rewrite IH; reflexivity.
@@ -213,7 +218,7 @@ Proof.
     assert (Htb : t < b') by lia.
     rewrite Hcombo by (unfold b' in Htb; lia).
     assert (Hin : In (nth t cs []) (firstn (Nat.min (c_chunk cr) (s_trials S0 - a)) (skipn a cs))).
-    { replace t with (a + (t - a)) by lia. rewrite <- nth_skipn.
+    { replace t with (a + (t - a)) by lia. rewrite <- (nth_skipn cs a (t - a) []).
       rewrite <- (firstn_skipn (Nat.min (c_chunk cr) (s_trials S0 - a)) (skipn a cs)) at 1.
       assert (Hl : length (firstn (Nat.min (c_chunk cr) (s_trials S0 - a)) (skipn a cs)) = Nat.min (c_chunk cr) (s_trials S0 - a)).
       { rewrite firstn_length, skipn_length. lia. }
@@ -226,6 +231,65 @@ Proof.
     + apply IH; [lia | lia|]. intros b Hab Hmod Hb. apply Hblocks; [lia | | exact Hb].
       replace (b - a) with ((b - (a + c_chunk cr)) + 1 * c_chunk cr) by lia.
       rewrite Nat.mod_add by lia. exact Hmod.
+Qed.
+
+
+Lemma skipn_concat_uniform {A} (bs : list (list A)) (tl : list A) ch :
+  (forall blk, In blk bs -> length blk = ch) -> forall r, r <= length bs ->
+  skipn (r * ch) (concat bs ++ tl) = concat (skipn r bs) ++ tl.
+Proof.
+  induction bs as [|b t IH]; intros Hl r Hr.
+  - cbn in Hr. assert (r = 0) by lia. subst. reflexivity.
+  - destruct r; [reflexivity|]. cbn [concat skipn]. rewrite <- app_assoc.
+    replace (S r * ch) with (length b + r * ch) by (rewrite (Hl b (or_introl eq_refl)); lia).
+    rewrite skipn_app. rewrite skipn_all2 by lia. cbn [app].
+    replace (length b + r * ch - length b) with (r * ch) by lia.
+    apply IH; [intros blk Hb; apply Hl; right; exact Hb | cbn in Hr; lia].
+Qed.
+
+Lemma concat_length_uniform {A} (bs : list (list A)) ch :
+  (forall blk, In blk bs -> length blk = ch) -> length (concat bs) = length bs * ch.
+Proof.
+  induction bs as [|b t IH]; intros Hl; [reflexivity|].
+  cbn [concat length]. rewrite app_length, IH by (intros blk Hb; apply Hl; right; exact Hb).
+  rewrite (Hl b (or_introl eq_refl)). lia.
+Qed.
+
+Lemma chunks_ok_rounds (fulls : list (list (list nat))) (lo : list (list nat)) :
+  0 < c_chunk cr ->
+  cs = concat fulls ++ lo ->
+  (forall blk, In blk fulls -> length blk = c_chunk cr /\ block_ok true blk) ->
+  length lo < c_chunk cr -> (lo <> [] -> block_ok false lo) ->
+  chunks_ok (S (s_trials S0)) S0 s cr 0 = true.
+Proof.
+  intros Hch Hcs Hfulls Hlo Hlook.
+  assert (Hul : forall blk, In blk fulls -> length blk = c_chunk cr) by (intros blk Hb; apply Hfulls; exact Hb).
+  assert (HT : s_trials S0 = length fulls * c_chunk cr + length lo).
+  { rewrite <- Hlen, Hcs, app_length, (concat_length_uniform fulls (c_chunk cr) Hul). reflexivity. }
+  apply chunks_ok_blocks; [exact Hch | lia | lia|].
+  intros b _ Hmod Hb. rewrite Nat.sub_0_r in Hmod.
+  apply Nat.mod_divides in Hmod; [|lia]. destruct Hmod as [r Hr]. rewrite Nat.mul_comm in Hr. subst b.
+  assert (Hrle : r <= length fulls).
+  { destruct (Nat.le_gt_cases r (length fulls)) as [H | H]; [exact H|]. exfalso.
+    assert (S (length fulls) * c_chunk cr <= r * c_chunk cr) by (apply Nat.mul_le_mono_r; lia). lia. }
+  rewrite Hcs, (skipn_concat_uniform fulls lo (c_chunk cr) Hul r Hrle).
+  destruct (Nat.eq_dec r (length fulls)) as [-> | Hne].
+  - rewrite skipn_all. cbn [concat app].
+    replace (s_trials S0 - length fulls * c_chunk cr) with (length lo) by lia.
+    rewrite Nat.min_r by lia. rewrite firstn_all.
+    replace (length fulls * c_chunk cr + c_chunk cr <=? s_trials S0) with false by (symmetry; apply Nat.leb_gt; lia).
+    apply Hlook. intros E. subst lo. cbn in HT. lia.
+  - assert (Hrlt : r < length fulls) by lia.
+    rewrite (skipn_nth_cons fulls r []) by exact Hrlt. cbn [concat]. rewrite <- app_assoc.
+    assert (Hin : In (nth r fulls []) fulls) by (apply nth_In; exact Hrlt).
+    destruct (Hfulls _ Hin) as [Hl Hok].
+    assert (Hge : (S r) * c_chunk cr <= length fulls * c_chunk cr) by (apply Nat.mul_le_mono_r; lia).
+    rewrite Nat.min_l by lia.
+    assert (Hfirst : firstn (c_chunk cr) (nth r fulls [] ++ concat (skipn (S r) fulls) ++ lo) = nth r fulls []).
+    { rewrite <- Hl. rewrite firstn_app, firstn_all, Nat.sub_diag. cbn [firstn]. apply app_nil_r. }
+    rewrite Hfirst.
+    replace (r * c_chunk cr + c_chunk cr <=? s_trials S0) with true by (symmetry; apply Nat.leb_le; lia).
+    exact Hok.
 Qed.
 
 End Chunks.
